@@ -3,13 +3,15 @@
    Two flags select the behaviour before the fix: commits (DESIGN.md section 4, F-C18a/b):
      legacy_generation : parse_evolving_ansatz_result assigns `result.generation` (c33d61e reverted);
      legacy_aux        : the encoder maps the auxiliary values through self.default() and the object_hook
-                         ends without returning unrecognised dicts (cf4a99e reverted).
+                         ends without returning unrecognised dicts (cf4a99e reverted);
+     legacy_width      : the QuasiDistribution clauses neither write nor read "quasidistribution_num_bits"
+                         (110f6bc reverted): the bit width of the eigenstate is lost.
    /repo HEAD is `head_flags`.  Definitions only. *)
 From QV Require Export Json.EvqeCodec.
 Open Scope string_scope.
 
-Record flags := mkFlags { legacy_generation : bool; legacy_aux : bool }.
-Definition head_flags : flags := mkFlags false false.
+Record flags := mkFlags { legacy_generation : bool; legacy_aux : bool; legacy_width : bool }.
+Definition head_flags : flags := mkFlags false false false.
 
 (* ---------------------------------------------------------------- typed data *)
 (* a Python float given as int is kept as such; complex parts are always floats *)
@@ -18,7 +20,8 @@ Inductive scalar := SNone | SNum (n : num) | SComplex (re im : num).
 Record quasi := mkQuasi {
   q_data : list (Z * num);        (* int outcome -> quasi-probability, insertion order, keys pairwise different *)
   q_shots : option num;
-  q_bound : option num
+  q_bound : option num;
+  q_width : Z                     (* _num_bits: the length of the keys of binary_probabilities() *)
 }.
 
 Record popeval := mkPopEval {
@@ -49,7 +52,7 @@ Definition of_scalar (s : scalar) : pyval :=
   match s with SNone => PNone | SNum n => PNum n | SComplex re im => PComplex re im end.
 Definition of_quasi (q : quasi) : pyval :=
   PObj CQuasiDist [PDict (map (fun kv => (PInt (fst kv), PNum (snd kv))) (q_data q));
-                   of_opt PNum (q_shots q); of_opt PNum (q_bound q)].
+                   of_opt PNum (q_shots q); of_opt PNum (q_bound q); PInt (q_width q)].
 Definition of_popeval (e : popeval) : pyval :=
   PObj CPopEval [of_population (pe_population e); PTuple (map (of_opt PNum) (pe_values e));
                  of_ind (pe_best e); PNum (pe_best_value e)].
@@ -67,6 +70,39 @@ Definition of_solver_result (r : solver_result) : pyval :=
     [of_scalar (r_eigenvalue r); of_aux (r_aux r); of_opt of_quasi (r_eigenstate r); of_opt of_ind (r_best r);
      of_opt (fun l => PList (map PInt l)) (r_evaluations r); of_opt PInt (r_generations r);
      of_opt (fun l => PList (map of_popeval l)) (r_history r); of_opt PCircuit (r_circuit r)].
+
+(* ---------------------------------------------------------------- bitstrings (qiskit QuasiDistribution) *)
+(* A QuasiDistribution value is PObj CQuasiDist [items; shots; stddev_upper_bound; _num_bits].  _num_bits is private
+   but observable: binary_probabilities() renders every key as format(key, "b").zfill(_num_bits).  The constructor
+   sets it to 0 for empty data, to len(bin(max key)) - 2 for int keys, to the longest key for bitstring keys.
+   Keys are non-negative ints (negative ones: ModelScope). *)
+Fixpoint pos_bin (p : positive) : string :=
+  match p with xH => "1" | xO q => pos_bin q ++ "0" | xI q => pos_bin q ++ "1" end.
+(* format(z, "b") *)
+Definition bin_str (z : Z) : result string :=
+  match z with Z0 => Ok "0" | Zpos p => Ok (pos_bin p) | Zneg _ => Err ModelScope end.
+Definition slen (s : string) : Z := Z.of_nat (String.length s).
+Fixpoint zeros (n : nat) : string := match n with O => "" | S m => String "0" (zeros m) end.
+(* s.zfill(n) for a string of digits; also format(key, f"0{n}b") = zfill n (format(key, "b")) *)
+Definition zfill (n : Z) (s : string) : string := zeros (Z.to_nat (n - slen s)) ++ s.
+
+Definition key_nat (kv : pyval * pyval) : result Z :=
+  match fst kv with PNum (NInt z) => if (z <? 0)%Z then Err ModelScope else Ok z | _ => Err ModelScope end.
+
+(* list(o.binary_probabilities().keys()): distinct ints have distinct renderings, the comprehension merges nothing *)
+Definition quasi_binary_keys (data : list (pyval * pyval)) (n : Z) : result (list string) :=
+  mapM (fun kv => do k <- key_nat kv; do b <- bin_str k; Ok (zfill n b)) data.
+
+(* int(s, 2) for a string of binary digits; ValueError otherwise *)
+Definition bit_of (c : ascii) : option Z :=
+  if Ascii.eqb c "0" then Some 0%Z else if Ascii.eqb c "1" then Some 1%Z else None.
+Fixpoint parse_bits_from (acc : Z) (s : string) : result Z :=
+  match s with
+  | EmptyString => Ok acc
+  | String c r => match bit_of c with Some b => parse_bits_from (2 * acc + b)%Z r | None => Err "ValueError" end
+  end.
+Definition parse_bits (s : string) : result Z :=
+  match s with EmptyString => Err "ValueError" | _ => parse_bits_from 0%Z s end.
 
 (* ---------------------------------------------------------------- encoder *)
 Definition is_evqe_serializable (o : pyval) : bool := is_evqe_type o.   (* EVQEPopulationJSONEncoder.serializable_types() *)
@@ -87,10 +123,17 @@ Section Encoder.
     | PComplex re im =>
         Ok (PDict [(K "complex_number_real_value", PNum (to_float re));
                    (K "complex_number_imaginary_value", PNum (to_float im))])
-    | PObj CQuasiDist [PDict data; shots; bound] =>
-        Ok (PDict [(K "quasidistribution_data", PList (map (fun kv => PList [fst kv; snd kv]) data));
-                   (K "quasidistribution_shots", shots);
-                   (K "quasidistribution_stdev_bound", bound)])
+    | PObj CQuasiDist [PDict data; shots; bound; width] =>
+        let base := [(K "quasidistribution_data", PList (map (fun kv => PList [fst kv; snd kv]) data));
+                     (K "quasidistribution_shots", shots);
+                     (K "quasidistribution_stdev_bound", bound)] in
+        if legacy_width fl then Ok (PDict base)
+        else
+          (* bitstrings = list(o.binary_probabilities().keys());  len(bitstrings[0]) if len(bitstrings) > 0 else None *)
+          do w <- as_int width;
+          do bitstrings <- quasi_binary_keys data w;
+          Ok (PDict (base ++ [(K "quasidistribution_num_bits",
+                               match bitstrings with [] => PNone | b :: _ => PInt (slen b) end)]))
     | PCircuit tok => Ok (PDict [(K "qiskit_quantum_circuit", PStr tok)])     (* b64(qpy_dump(o)) *)
     | PObj CPopEval [population; values; best; best_value] =>
         do p <- result_default population;
@@ -136,13 +179,28 @@ End Encoder.
 Definition mk_complex (a b : pyval) : result pyval :=
   do x <- as_num a; do y <- as_num b; Ok (PComplex (to_float x) (to_float y)).
 
-(* QuasiDistribution(data, shots, stddev_upper_bound): int keys are kept as they are; string keys would be
-   parsed as hex/binary (never produced by the encoder): outside the model *)
+(* QuasiDistribution(data, shots, stddev_upper_bound) — qiskit's constructor on the data the decoder hands it:
+   empty: width 0; int keys: kept, width = len(bin(max key)) - 2; bitstring keys (the first key decides; it must match
+   ^[01]+$): width = the longest key, keys = int(key, 2).  Renderings of distinct ints parse back to distinct ints: the
+   constructor's comprehension merges nothing.  "0x"/"0b" prefixed keys: outside the model. *)
+Definition is_bits (s : string) : bool :=
+  match parse_bits s with Ok _ => true | Err _ => false end.
+
 Definition mk_quasi (data shots bound : pyval) : result pyval :=
   match data with
-  | PDict kvs =>
-      if forallb (fun kv => match fst kv with PNum (NInt _) => true | _ => false end) kvs
-      then Ok (PObj CQuasiDist [data; shots; bound]) else Err ModelScope
+  | PDict [] => Ok (PObj CQuasiDist [data; shots; bound; PInt 0])
+  | PDict (((PNum (NInt _), _) :: _) as kvs) =>
+      do ks <- mapM key_nat kvs;
+      do b <- bin_str (fold_right Z.max 0%Z ks);
+      Ok (PObj CQuasiDist [data; shots; bound; PInt (slen b)])
+  | PDict (((PStr s0, _) :: _) as kvs) =>
+      if is_bits s0 then
+        do ss <- mapM (fun kv : pyval * pyval => match fst kv with PStr s => Ok s | _ => Err ModelScope end) kvs;
+        let width := fold_right (fun s acc => Z.max (slen s) acc) 0%Z ss in
+        do kvs' <- mapM (fun kv : pyval * pyval =>
+                           match fst kv with PStr s => do k <- parse_bits s; Ok (PInt k, snd kv) | _ => Err ModelScope end) kvs;
+        Ok (PObj CQuasiDist [PDict kvs'; shots; bound; PInt width])
+      else Err ModelScope
   | _ => Err ModelScope
   end.
 
@@ -156,10 +214,28 @@ Fixpoint pdict_get (k : pyval) (d : list (pyval * pyval)) : result pyval :=
 Definition parse_complex_number (d : sdict) : result pyval :=
   do a <- dget "complex_number_real_value" d; do b <- dget "complex_number_imaginary_value" d; mk_complex a b.
 
-Definition parse_quasidistribution (d : sdict) : result pyval :=
+(* {format(key, f"0{num_bits}b"): value for key, value in data.items()} *)
+Definition format_keys (num_bits data : pyval) : result pyval :=
+  match data, num_bits with
+  | PDict kvs, PNum (NInt w) =>
+      if (w <? 0)%Z then Err ModelScope
+      else do l <- mapM (fun kv : pyval * pyval => do k <- key_nat kv; do b <- bin_str k; Ok (PStr (zfill w b), snd kv)) kvs;
+           Ok (PDict l)
+  | _, _ => Err ModelScope
+  end.
+
+(* object_dict.get(k) *)
+Definition dget_or_none (k : string) (d : sdict) : pyval := match dget k d with Ok v => v | Err _ => PNone end.
+
+Definition parse_quasidistribution (fl : flags) (d : sdict) : result pyval :=
   do x <- dget "quasidistribution_data" d; do data <- py_dict x;
+  do data' <- (if legacy_width fl then Ok data
+               else match dget_or_none "quasidistribution_num_bits" d with
+                    | PNone => Ok data
+                    | num_bits => format_keys num_bits data
+                    end);
   do s <- dget "quasidistribution_shots" d; do b <- dget "quasidistribution_stdev_bound" d;
-  mk_quasi data s b.
+  mk_quasi data' s b.
 
 (* qpy_load(b64decode(s))[0]: trusted to invert the encoder's qpy_dump (the token) *)
 Definition parse_quantum_circuit (d : sdict) : result pyval :=
@@ -213,7 +289,8 @@ Section Decoder.
     if any_key_in evqe_identifying_keys d then evqe_hook d
     else if has "complex_number_real_value" d || has "complex_number_imaginary_value" d then parse_complex_number d
     else if has "quasidistribution_data" d || has "quasidistribution_shots" d || has "quasidistribution_stdev_bound" d
-         then parse_quasidistribution d
+            || (negb (legacy_width fl) && has "quasidistribution_num_bits" d)
+         then parse_quasidistribution fl d
     else if has "qiskit_quantum_circuit" d then parse_quantum_circuit d
     else if has "base_population_evaluation_population" d || has "base_population_evaluation_expectation_values" d
             || has "base_population_evaluation_best_individual" d
